@@ -53,7 +53,7 @@ def run(ctx: core.Check):
                        "Distinct & non-trivial = number of encryptions whose IV was compared with all earlier ones of the "
                        "history (every one after the first).")
     ctx.note("Use A: Encrypt_MC (fresh-generator assumption; published IV = used IV)")
-    ctx.mc("Encrypt_MC", "Encrypt_MC.cfg", required_actions=("Encrypt",))
+    ctx.mc("Encrypt_MC", "Encrypt_MC.cfg", required_actions=("Encrypt", "NewObject"))
     d = ctx.tmp("c14")
     keys = setup_keys(d)
     key = keys["fwenc"]
